@@ -30,23 +30,23 @@ func (g *G) PickInt(l []int) int { return l[g.Intn(len(l))] }
 
 // Swarm weights of one run.
 type StoreGenCfg struct {
-	Datasets  []string
-	Pool      []string // "<E>e0"...
-	Preds     []string // "<S>p0"...
-	PropKeys  []string // "<S>a0"...
-	NOps      int
-	MaxBatch  int
-	PTxn      float64
-	PRestart  float64
-	PDeleted  float64
-	PIdentic  float64 // rewrite the current version unchanged
-	PEqLen    float64 // equal-serialised-length adversary of the current version
-	PFlipDel  float64
-	PRepeat   float64 // repeat an earlier element of the same batch
-	PRefHeavy float64
-	PNested   float64
-	PRead     float64 // token-carrying reader page
-	Readers   int
+	Datasets       []string
+	Pool           []string // "<E>e0"...
+	Preds          []string // "<S>p0"...
+	PropKeys       []string // "<S>a0"...
+	NOps           int
+	MaxBatch       int
+	PTxn           float64
+	PRestart       float64
+	PDeleted       float64
+	PIdentic       float64 // rewrite the current version unchanged
+	PEqLen         float64 // equal-serialised-length adversary of the current version
+	PFlipDel       float64
+	PRepeat        float64 // repeat an earlier element of the same batch
+	PRefHeavy      float64
+	PNested        float64
+	PRead          float64 // token-carrying reader page
+	Readers        int
 	NoPlainObjects bool // UDA payloads: an object-valued property is a nested entity
 }
 
